@@ -481,6 +481,96 @@ FIELDMERGEORIGIN = {
                              'params': [('rmin', 'int'), ('rmax', 'int'), ('cmin', 'int'), ('cmax', 'int')], 'block': _merge_slices_origin},
 }
 
+# ------------------------------------------------------------------------------------------------ public flow: _reduce / overlap / merge / insert defaults
+def generate_public_flow(repo):
+    """Gen/FieldPublicFlow.lean: the remaining value-carrying pieces of `_reduce`, `overlap`, `merge`, `_disjoint` and the defaults
+    of `merge` / `insert`:
+      * `_reduce`: `[{'field': [f, …], 'extent': f.extent} for f in fields]` -> how many copies of `f` start a group and that its
+        extent is the member's cached extent; `return _disjoint(fields)`
+      * `overlap`, many-branch: the two returned constants
+      * `merge`: which of (a, b) go to `_merge` and in which order; the default of `enforce_overlap`
+      * `_disjoint`: the `r` of `combinations(range(len(fields)), r)`
+      * `insert`: the defaults of `intensity` and `weight`"""
+    import os
+    mod = ast.parse(open(os.path.join(repo, 'lentil/field.py')).read())
+    fns = {n.name: n for n in mod.body if isinstance(n, ast.FunctionDef)}
+    def body_of(name):
+        if name not in fns: raise Refuse(f'field.py: {name} not found')
+        return [s for s in fns[name].body if not (isinstance(s, ast.Expr) and isinstance(s.value, ast.Constant))]
+    b = lambda x: 'true' if x else 'false'
+    # ---- _reduce
+    rb = body_of('_reduce')
+    if len(rb) != 2 or ast.unparse(rb[1]) != 'return _disjoint(fields)': raise Refuse('_reduce: statements changed')
+    st = rb[0]
+    if not (isinstance(st, ast.Assign) and ast.unparse(st.targets[0]) == 'fields' and isinstance(st.value, ast.ListComp)
+            and len(st.value.generators) == 1 and ast.unparse(st.value.generators[0].target) == 'f'
+            and ast.unparse(st.value.generators[0].iter) == 'fields' and not st.value.generators[0].ifs
+            and isinstance(st.value.elt, ast.Dict)):
+        raise Refuse('_reduce: group construction is not a comprehension of dicts over `fields`')
+    d = {ast.literal_eval(k): v for k, v in zip(st.value.elt.keys, st.value.elt.values)}
+    if sorted(d) != ['extent', 'field']: raise Refuse('_reduce: group keys changed')
+    if not (isinstance(d['field'], ast.List) and d['field'].elts and all(ast.unparse(x) == 'f' for x in d['field'].elts)):
+        raise Refuse("_reduce: 'field' is not a list of copies of f")
+    if ast.unparse(d['extent']) != 'f.extent': raise Refuse("_reduce: 'extent' is not f.extent")
+    ncopies = len(d['field'].elts)
+    # ---- overlap, many-branch
+    top = _first_if(body_of('overlap'))
+    if top is None or len(top.orelse) != 2 or ast.unparse(top.orelse[0]).strip() != 'fields = _reduce(fields)' or not isinstance(top.orelse[1], ast.If):
+        raise Refuse('overlap: many-branch changed')
+    node = top.orelse[1]
+    consts = []
+    for br in (node.body, node.orelse):
+        if not (len(br) == 1 and isinstance(br[0], ast.Return) and isinstance(br[0].value, ast.Constant) and isinstance(br[0].value.value, bool)):
+            raise Refuse('overlap: many-branch does not return constants')
+        consts.append(br[0].value.value)
+    # ---- merge
+    mb = body_of('merge')
+    if len(mb) != 2 or not (isinstance(mb[0], ast.If) and len(mb[0].body) == 1 and isinstance(mb[0].body[0], ast.Raise) and not mb[0].orelse):
+        raise Refuse('merge: expected the refusal guard and one return')
+    ret = [s for s in mb if isinstance(s, ast.Return)]
+    if len(ret) != 1 or not (isinstance(ret[0].value, ast.Call) and ast.unparse(ret[0].value.func) == '_merge' and len(ret[0].value.args) == 1
+                             and isinstance(ret[0].value.args[0], ast.Tuple)): raise Refuse('merge: accepted branch is not _merge((…))')
+    idx = {'a': 0, 'b': 1}
+    order = []
+    for x in ret[0].value.args[0].elts:
+        if not (isinstance(x, ast.Name) and x.id in idx): raise Refuse('merge: _merge called on something else than a / b')
+        order.append(idx[x.id])
+    ma = fns['merge'].args
+    if [a.arg for a in ma.args] != ['a', 'b', 'enforce_overlap'] or len(ma.defaults) != 1 or not isinstance(ma.defaults[0], ast.Constant) \
+            or not isinstance(ma.defaults[0].value, bool): raise Refuse('merge: signature changed')
+    # ---- _disjoint scan
+    scans = [n for n in ast.walk(fns['_disjoint']) if isinstance(n, ast.For)] if '_disjoint' in fns else []
+    if len(scans) != 1 or not (isinstance(scans[0].iter, ast.Call) and ast.unparse(scans[0].iter.func) == 'combinations' and len(scans[0].iter.args) == 2
+                               and ast.unparse(scans[0].iter.args[0]) == 'range(len(fields))' and isinstance(scans[0].iter.args[1], ast.Constant)
+                               and isinstance(scans[0].iter.args[1].value, int)): raise Refuse('_disjoint: scan is not combinations(range(len(fields)), r)')
+    r = scans[0].iter.args[1].value
+    # ---- insert defaults
+    ia = fns['insert'].args if 'insert' in fns else None
+    if ia is None or [a.arg for a in ia.args] != ['field', 'out', 'intensity', 'weight'] or len(ia.defaults) != 2 \
+            or not (isinstance(ia.defaults[0], ast.Constant) and isinstance(ia.defaults[0].value, bool)) \
+            or not (isinstance(ia.defaults[1], ast.Constant) and type(ia.defaults[1].value) is int): raise Refuse('insert: signature changed')
+    text = f"""/-- translated from `field.py:_reduce` (line {fns['_reduce'].lineno}): number of copies of `f` in `'field': [f]` of a fresh group (its `'extent'` is `f.extent`) -/
+def reduceInitCopies : Nat := {ncopies}
+
+/-- translated from `field.py:overlap` (line {fns['overlap'].lineno}): `if len(fields) > 1: return <this>` after `_reduce` -/
+def overlapManyThen : Bool := {b(consts[0])}
+/-- translated from `field.py:overlap`: `else: return <this>` -/
+def overlapManyElse : Bool := {b(consts[1])}
+
+/-- translated from `field.py:merge` (line {fns['merge'].lineno}): the tuple handed to `_merge` (0 = `a`, 1 = `b`) -/
+def mergeAcceptedOrder : List Nat := {order}
+/-- translated from `field.py:merge`: default of `enforce_overlap` -/
+def mergeEnforceDefault : Bool := {b(ma.defaults[0].value)}
+
+/-- translated from `field.py:_disjoint` (line {fns['_disjoint'].lineno}): `r` of `combinations(range(len(fields)), r)` -/
+def disjointScanR : Nat := {r}
+
+/-- translated from `field.py:insert` (line {fns['insert'].lineno}): defaults of `intensity` and `weight` -/
+def insertDefaultIntensity : Bool := {b(ia.defaults[0].value)}
+def insertDefaultWeight : Int := ({ia.defaults[1].value} : Int)
+"""
+    return text, ['_reduce group construction, overlap many-branch constants, merge accepted tuple and default, _disjoint scan arity, insert defaults']
+
 FIELDDISPATCH = {
     # Field.__mul__: `if self.size == 1 and other.size == 1:` -> _mul_scalar, else _mul_array
     '__mul__#both_one': {'py_name': '__mul__', 'lean_name': 'mulBothOne', 'params': [('self', _SZ), ('other', _SZ)],
@@ -504,6 +594,7 @@ FIELDDISPATCH = {
 }
 
 MODULES = [
+    {'name': 'FieldPublicFlow', 'src': 'lentil/field.py', 'generator': generate_public_flow, 'props': ['C06'], 'imports': []},
     {'name': 'FieldMergeOrigin', 'src': 'lentil/field.py', 'sigs': FIELDMERGEORIGIN, 'props': ['C06'], 'imports': []},
     {'name': 'FieldOverlapPair', 'src': 'lentil/field.py', 'generator': generate_overlap_pair, 'props': ['C06'], 'imports': ['LentilVerif.Gen.Extent']},
     {'name': 'FieldReduceFlow', 'src': 'lentil/field.py', 'generator': generate_reduce_flow, 'props': ['C06'], 'imports': []},
